@@ -494,7 +494,13 @@ Definition handle (n : node) (c : nat) (rq : request) : node * resp :=
   | RqRemove key =>
       match guard_safe n c key PRemove with
       | GStop n' r => (n', r)
-      | GGo dbn d => let '(d', r, msgs) := remove_value d key in (sends (put_db n dbn d') msgs, r)
+      | GGo dbn d =>
+          let '(d', r, msgs) := remove_value d key in
+          let n1 := sends (put_db n dbn d') msgs in
+          (* fix H4.1: a secondary forwards the remove to the primary *)
+          ((match r with
+            | ROk => if is_primary n1 then n1 else send_to_primary n1 ("replicate-remove " +++ dbn +++ " " +++ key)
+            | _ => n1 end), r)
       end
   | RqSet key value version =>
       match guard_safe n c key PWrite with
